@@ -1,4 +1,5 @@
 import FsDb.Model.Wire
+import FsDb.Model.Rpc
 /-!
 # C11 — The gRPC client is indistinguishable from the inline client (the algebraic part)
 
@@ -137,5 +138,54 @@ theorem C11_chunk_roundtrip (cs : Nat) (hcs : 0 < cs) (ps : List (List Nat)) :
     · exact ⟨Nat.le_of_lt h.rest, by simpa using he⟩
 
 example : (writeAll 4 {} [[1, 2, 3], [], [4, 5, 6, 7, 8, 9]]).close = [[1, 2, 3, 4], [5, 6, 7, 8], [9]] := by decide
+
+/-! ### end to end: a call through the gRPC client = the same call through the inline client -/
+open FsDb FsDb.Rpc
+
+theorem stream_roundtrip (cd : Codec) (bytes : List Nat) : Wire.readAll (streamOf cd bytes) = bytes := by
+  have := (C11_chunk_roundtrip cd.chunk cd.chunk_pos [bytes]).1
+  simpa [writeAll, streamOf] using this
+
+theorem err_roundtrip (e : Err) : ofSentinel (Wire.clientFromDetail (Wire.serverDetail (errSet e))) = e := by
+  cases e <;> decide
+
+theorem reply_roundtrip (cd : Codec) (o : Out) : decodeReply cd (encodeReply cd o) = o := by
+  cases o with
+  | ok => rfl
+  | err e => simp only [encodeReply, decodeReply, err_roundtrip]
+  | val c => simp only [encodeReply, decodeReply, stream_roundtrip, cd.ident_payload]
+  | keys ks => rfl
+  | files cs => rfl
+  | bad => rfl
+
+theorem lvl_roundtrip (l : Level) : lvlOfWire (Wire.fromGrpc (Wire.toGrpc (lvlToWire l))) = l := by
+  cases l <;> rfl
+
+theorem request_roundtrip (cd : Codec) (op : Op) : decodeReq cd (encodeReq cd op) = op := by
+  cases op <;> simp only [encodeReq, decodeReq, lvl_roundtrip, stream_roundtrip, cd.ident_payload]
+
+/-- **One call.**  Whatever the state of the server and whatever the call: the gRPC client's caller
+    gets the value / the error class the inline client's caller gets, and the server's state moves
+    the same way.  (Level through the wire enum, content both ways through the chunked stream of any
+    chunk size > 0, errors through status code + detail; the transport is trusted.) -/
+theorem C11_call_eq_inline (cd : Codec) (s : Sys) (op : Op) : Rpc.call cd s op = s.step op := by
+  unfold Rpc.call
+  rw [request_roundtrip]
+  simp only [reply_roundtrip]
+
+/-- **Every sequence of calls.** -/
+theorem C11_end_to_end (cd : Codec) (s : Sys) (ops : List Op) : Rpc.run cd s ops = s.run ops := by
+  induction ops generalizing s with
+  | nil => rfl
+  | cons op ops ih =>
+    simp only [Rpc.run, Sys.run, C11_call_eq_inline, ih]
+
+/-- a server-side rejection is never swallowed: an error answer stays an error answer of the same class -/
+theorem C11_rejection_reported (cd : Codec) (e : Err) : decodeReply cd (encodeReply cd (.err e)) = .err e :=
+  reply_roundtrip cd (.err e)
+
+/-- non-vacuity: a codec exists (bytes of content `c` = the list `[c]`, chunks of 2048) -/
+example : ∃ cd : Codec, cd.chunk = 2048 :=
+  ⟨⟨fun c => [c], fun l => l.headD 0, 2048, by decide, fun _ => rfl⟩, rfl⟩
 
 end FsDb.C11
